@@ -8,7 +8,7 @@ FW_ASSUMPTIONS = ["single forwarding thread (thread id 0); multi-thread dispatch
 
 PLAN = {
     "C05": {
-        "parts": [{"engine": "tablesim", "quick": 40000, "thorough": 3000000}],
+        "parts": [{"engine": "tablesim", "quick": 40000, "thorough": 3000000, "quick_wall": 120}],
         "nontrivial": ">=3 prefixes held next hops at some point and >=1 next-hop removal/clear took effect",
         "fault_note": "no clock, I/O or concurrency is involved in this property; the simulator contributes history generation, the reference model, shrinking and replay only, so no fault kind applies",
         "components": {"real": ["fw/table FibStrategyTree", "fw/table FibStrategyHashTable (m in 1..6)", "std/encoding names/hashes"], "stub": []},
@@ -96,7 +96,7 @@ PLAN["C17"] = {
     "assumptions": ["RIB commands use the /r name space and FIB commands the /f name space (the RIB rewrites the FIB entry of a prefix it manages)", "an MTU below 64 bytes cannot carry a packet and must be refused; 64..127 is left open; >=128 must be accepted", "a requester never destroys its own face or the internal face", "NLSR readvertisement is off"],
 }
 PLAN["C16"] = {
-    "parts": [{"engine": "schedsim", "quick": 30000, "thorough": 2500000}],
+    "parts": [{"engine": "schedsim", "quick": 30000, "thorough": 2500000, "quick_wall": 150}],
     "nontrivial": ">=1 task was parked inside a RIB mutator while another task ran, or the scenario's release order decided more than 4 scheduling points",
     "fault_note": "schedule fault = which parked task is released at each yield point (before every FIB/RIB lock acquisition, inside every critical section - where the hook also probes that the lock the section needs is really held, and on arrival at a lock whether it is already held: re-entrancy - between the steps of face removal, between a lookup's return and the use of its result); endpoint fault = face teardown racing with registrations and lookups",
     "components": {"real": ["fw/table RibTable (AddEncRoute, RemoveRouteEnc, CleanUpFace)", "fw/table FibStrategyTree / FibStrategyHashTable incl. their RWMutex", "fw/face Table.Remove", "fw/dispatch face map"], "stub": ["the threads themselves: management thread, face send goroutines and forwarding threads are represented by simulated tasks that issue the same table calls"]},
@@ -104,7 +104,7 @@ PLAN["C16"] = {
     "technique": "deterministic simulation: cooperative seeded scheduler over real goroutines parked at lock/yield hooks, recorded history checked for linearizability with porcupine against a sequential reference model",
 }
 PLAN["C15"] = {
-    "parts": [{"engine": "objsim", "quick": 8000, "thorough": 400000}],
+    "parts": [{"engine": "objsim", "quick": 8000, "thorough": 400000, "quick_wall": 120}],
     "nontrivial": "the fetched object had >=2 segments and >=1 segment Data arrived out of order or only after a retransmission",
     "fault_note": "network faults between consumer and producer: Interest/Data drop (within and beyond the 3-retry budget), delay (incl. beyond the Interest lifetime), duplication; reordering arises from delays; versions published in arbitrary order; name slices with spare capacity; both stores; process faults: the producer restarts (graceful close, or crash = the on-disk store file as it is at that instant is what the next incarnation opens; the in-memory store is lost) before or during a fetch; store transactions (begin/commit/rollback) with removals issued while a transaction is open",
     "components": {"real": ["std/object Client (run loop goroutine, Produce, Consume, round-robin segment fetcher, ExpressR retry)", "std/object MemoryStore and BoltStore (real bbolt file under TMPDIR, removed after the run)", "std/engine/basic Engine x2 with its real Timer on the bubble clock", "std/ndn/rdr_2024 metadata codec"], "stub": ["faces (SimFace)", "the network/forwarder between the two engines (scripted hub)"]},
@@ -112,14 +112,14 @@ PLAN["C15"] = {
 }
 DV_COMPONENTS = {"real": ["dv/dv Router (update rule with poison reverse, advertisement generation, sync-Interest handling, advert fetch/retry, dead-neighbour handling, FIB differ, prefix fetch/apply, readvertise handler)", "dv/table Rib, NeighborTable, Fib, PrefixTable", "dv/nfdc management client thread with its retry loop", "std/engine/basic Engine per router with its real Timer on the bubble clock", "dv/tlv and mgmt_2022 codecs"], "stub": ["the forwarders between the daemons: one simulated hub that answers management commands as NFD would, carries one-hop sync Interests with incoming-face indication, routes advertisement/prefix-data Interests to the named router and Data back", "std/sync SvSync is constructed but not started (unseedable jitter): new prefix-log sequence numbers are notified by the hub", "heartbeat and dead-check tickers: their firings are scenario events"]}
 PLAN["C18"] = {
-    "parts": [{"engine": "dvsim", "quick": 5000, "thorough": 500000, "quick_wall": 85}],
+    "parts": [{"engine": "dvsim", "quick": 5000, "thorough": 500000, "quick_wall": 150}],
     "nontrivial": ">=3 routers and the settle phase needed >=2 rounds in which tables still changed",
     "fault_note": "arbitrary delivery order of sync Interests, advertisement fetches and replies; loss (fetch retries), duplication, delay; link removal and re-addition; router crash and restart (volatile state lost); dead-check ticks; then faults stop and bounded-time convergence is demanded",
     "components": DV_COMPONENTS,
     "assumptions": ["links are symmetric and unit cost (the daemon has no other metric)", "after faults stop the hub delivers everything and keeps ticking; convergence must be reached within 400 heartbeat rounds / 50000 deliveries (worst case count-to-infinity is about n^2*16*degree deliveries)"],
 }
 PLAN["C19"] = {
-    "parts": [{"engine": "dvsim", "quick": 5000, "thorough": 500000, "quick_wall": 85}],
+    "parts": [{"engine": "dvsim", "quick": 5000, "thorough": 500000, "quick_wall": 150}],
     "nontrivial": ">=1 announced prefix was installed as a route and the announced set changed during the run",
     "fault_note": "as C18 plus prefix announce/withdraw through the real readvertise handler (incl. bursts that open a log gap > 100 and force a snapshot), multi-homed prefixes, neighbour face-id changes, late joiners, loss/duplication of prefix-sync notifications and prefix-data fetches, management commands failing within the client's retry budget",
     "components": DV_COMPONENTS,
